@@ -6,7 +6,7 @@ import pickle
 
 from hypothesis import strategies as st
 
-from .. import gen, model, norm, states
+from .. import gen, model, norm, states, walk
 from ..common import lib
 from ..core import require
 from ..spec import build, kinds
@@ -108,6 +108,8 @@ def check(case):  # noqa: PLR0915
     hs = h * f
     rs = f * h
     require(norm.same(dh, doc(h), norm.BITEXACT), "mul-mutated-operand", "h * f changed h")
+    walk.require_views(hs, f"h*{f!r}")
+    walk.require_views(rs, f"{f!r}*h")
     d = norm.diff(doc(hs), doc(rs), norm.BITEXACT)
     require(not d, "rmul-differs", lambda: f"f*h vs h*f: {norm.fmt(d)}")
 
@@ -152,6 +154,7 @@ def check(case):  # noqa: PLR0915
     json.dumps(hs.toJson(), allow_nan=False)
     pickle.loads(pickle.dumps(hs))
     merged = hs + h
+    walk.require_views(merged, "(h*f) + h")
     require(
         norm.Policy(exact=False).close("entries", doc(merged)["entries"], doc(hs)["entries"] + dh["entries"]),
         "merge-after-scale",
@@ -167,6 +170,7 @@ def check(case):  # noqa: PLR0915
         ref_more = model.evaluate(spec, [(r, w * f) for r, w in stream] + more)
         d = norm.diff(doc(twin), doc(hs), norm.Policy(exact=exact and ref_more.exact, scale=max(scale, 1.0 + ref_more.notes["maxabs"])))
         require(not d, "fill-after-scale", lambda: f"filling h*{f!r} vs filling the scaled-refill twin: {norm.fmt(d)}")
+        walk.require_views(hs, f"h*{f!r} after further fills")
         hash(hs)
 
     labels = ["kind:" + k for k in kinds(spec)]
